@@ -41,6 +41,8 @@ Theorem C10_trichotomy : Trichotomy_stmt.                             Proof. exa
 Print Assumptions C10_trichotomy.
 Theorem C10_operator_complements : Complement_stmt.                   Proof. exact complement_thm. Qed.
 Print Assumptions C10_operator_complements.
+Theorem C10_qfield_predicates : QField_predicates_stmt.              Proof. exact qfield_predicates_thm. Qed.
+Print Assumptions C10_qfield_predicates.
 Theorem C10_ctor_integer_canonical_exact : Ctor_integer_stmt.         Proof. exact ctor_integer_thm. Qed.
 Print Assumptions C10_ctor_integer_canonical_exact.
 Theorem C10_ctor_pair_text_canonical_exact : Ctor_pair_stmt.          Proof. exact ctor_pair_thm. Qed.
